@@ -33,7 +33,7 @@ PERIODS = [0, 0, 0.125, 1, 1, 5, 20, 0.1, 0.1, 0.3, 0.7]
 
 
 def n_cases(tier):
-    return 3000 if tier == 'quick' else 60000
+    return 3000 if tier == 'quick' else 300000
 
 
 def make_case(seed, index, tier):
